@@ -143,6 +143,96 @@ def _small_case(args):
     return cnt, out, NT[0]
 
 
+SPELLINGS = [((), {}),
+             ((), {"remove_invalid": True}),
+             ((), {"ret_idx": True}),
+             ((), {"remove_invalid": True, "ret_idx": True}),
+             ((), {"ret_idx": True, "remove_invalid": False}),
+             ((), {"remove_invalid": False}),
+             ((True,), {}),
+             ((True, True), {}),
+             ((False, True), {}),
+             ((True,), {"ret_idx": True})]
+
+
+def _spelling_case(args):
+    """The two switches given in every way a caller can spell them
+    (left out, by keyword in either order, positionally): for all ordered
+    pairs of spellings on the same arrays, called one after the other, the
+    second call answers what *it* asked for - a mask exactly when it asked
+    for one, invalid events left out exactly when it asked for that."""
+    func, = args
+    from dclab import downsampling as dsm
+    from dclab.cached import Cache
+    out = []
+    cnt = 0
+    f = getattr(dsm, func)
+    k = np.arange(40, dtype=float)
+    a = np.where(k % 7 == 3, np.nan, (k * 37) % 11 + k * 0.01)
+    b = np.where(k % 9 == 4, np.inf, (k * 13) % 17 + k * 0.02)
+    lead = (a, b) if func == "downsample_grid" else (a,)
+
+    def meaning(sp):
+        pos, kw = sp
+        rem = pos[0] if len(pos) > 0 else kw.get("remove_invalid", False)
+        idx = pos[1] if len(pos) > 1 else kw.get("ret_idx", False)
+        return rem, idx
+    for samples in (12, 30):     # below the number of valid events
+        for i1, s1 in enumerate(SPELLINGS):
+            for i2, s2 in enumerate(SPELLINGS):
+                try:
+                    Cache._cache.clear()
+                    del Cache._keys[:]
+                except AttributeError:
+                    Cache.clear_cache()
+                cnt += 1
+                case = {"kind": "spelling", "func": func, "first": i1,
+                        "second": i2, "samples": samples}
+                _call(f, *lead, samples, *s1[0], **s1[1])
+                res = _call(f, *lead, samples, *s2[0], **s2[1])
+                rem, idx = meaning(s2)
+                where = f"dclab.downsampling:{func}"
+                tags = {"func": func, "history": "spelling",
+                        "same_meaning": meaning(s1) == meaning(s2)}
+                if isinstance(res, BaseException):
+                    out.append(violation(
+                        where, "exception", case,
+                        f"{type(res).__name__}: {res}",
+                        dict(tags, exc=type(res).__name__)))
+                    continue
+                nret = len(lead) + (1 if idx else 0)
+                res_t = res if isinstance(res, tuple) else (res,)
+                if len(res_t) != nret:
+                    out.append(violation(
+                        where, "wrong-return-shape", case,
+                        f"after {s1}, the call {s2} returned "
+                        f"{len(res_t)} objects, expected {nret}", tags))
+                    continue
+                if idx:
+                    vs = check_result(func, a, b if len(lead) == 2 else None,
+                                      samples, rem, res_t, case)
+                    for v in vs:
+                        v["tags"]["history"] = "spelling"
+                    out += vs
+                else:
+                    vv = _valid(*[np.asarray(x) for x in res_t])
+                    if rem and not vv.all():
+                        out.append(violation(
+                            where, "invalid-included", case,
+                            f"after {s1}, the call {s2} returned invalid "
+                            f"events although they were to be left out",
+                            tags))
+                    eligible = int(_valid(*lead).sum()) if rem else len(a)
+                    expect = samples if samples <= eligible else eligible
+                    if len(res_t[0]) != expect:
+                        out.append(violation(
+                            where, "wrong-count", case,
+                            f"after {s1}, the call {s2} returned "
+                            f"{len(res_t[0])} events, expected {expect}",
+                            tags))
+    return cnt, out, cnt
+
+
 def generators(seed):
     rs = np.random.RandomState(seed)
     gens = {}
@@ -367,6 +457,8 @@ def run(ctx):
     res += par.pmap(_big_case, [(nm, ctx.seed)
                                 for nm in generators(ctx.seed)])
     res += par.pmap(_dataset_case, [(ctx.seed,), (ctx.seed, "allneg")])
+    res += par.pmap(_spelling_case, [("downsample_grid",),
+                                     ("downsample_rand",)])
     nontriv = 0
     for n, vs, nt in res:
         cnt += n
@@ -395,6 +487,9 @@ def run(ctx):
 
 def replay(case, ctx):
     from dclab import downsampling as dsm
+    if case["kind"] == "spelling":
+        return [v for v in _spelling_case((case["func"],))[1]
+                if v["case"] == case]
     if case["kind"] == "small":
         a = np.array([ALPHA[i] for i in case["a"]])
         n = len(a)
